@@ -8,7 +8,6 @@
 package downloader
 
 import (
-	"sort"
 	"time"
 
 	"github.com/youchainhq/go-youchain/common"
@@ -31,16 +30,17 @@ type VerifResult struct {
 	Pending      int
 }
 
-// VerifPools is a snapshot of the queue's bookkeeping, taken under the queue lock.
+// VerifPools is a snapshot of the queue's bookkeeping, taken under the queue lock.  Headers are identified by hash (two
+// headers of competing forks share a number).
 type VerifPools struct {
-	TaskPool  []uint64            // numbers of the headers in blockTaskPool
-	TaskQueue []uint64            // numbers in blockTaskQueue (a multiset, ascending)
-	Pend      map[string][]uint64 // blockPendPool: peer -> requested header numbers in request order
-	Done      []uint64            // numbers of the headers whose hash is in blockDonePool (resolved through the known headers)
-	DoneCount int                 // len(blockDonePool)
-	Window    []int               // per allocated result slot from the front: Pending counter; trailing nil slots omitted, inner nil = -99
-	Offset    uint64              // resultOffset
-	Lacks     map[string][]uint64 // per peer: numbers of the known headers the peer is marked as lacking
+	TaskPool  []common.Hash            // keys of blockTaskPool
+	TaskQueue []common.Hash            // hashes of the headers in blockTaskQueue (a multiset, in priority order)
+	Pend      map[string][]common.Hash // blockPendPool: peer -> requested headers in request order
+	Done      []common.Hash            // keys of blockDonePool
+	Window    []int                    // per result slot from the front: Pending counter; trailing nil slots omitted, inner nil = -99
+	WindowHdr []common.Hash            // per result slot: hash of the header the container was created for
+	Offset    uint64                   // resultOffset
+	Lacks     map[string][]common.Hash // per peer: hashes marked as lacking
 }
 
 // NewVerifQueue builds a queue whose result window has `window` slots and whose first expected block is origin+1.
@@ -70,20 +70,20 @@ func (v *VerifQueue) peer(id string) *peerConnection {
 	return p
 }
 
-// Schedule is queue.Schedule; returns the number of inserted headers.
-func (v *VerifQueue) Schedule(headers []*types.Header, from uint64) int {
-	return len(v.q.Schedule(headers, from))
+// Schedule is queue.Schedule; returns the inserted headers.
+func (v *VerifQueue) Schedule(headers []*types.Header, from uint64) []*types.Header {
+	return v.q.Schedule(headers, from)
 }
 
-// ReserveBodies is queue.ReserveBodies for the stub peer `id`; returns the numbers of the reserved headers.
-func (v *VerifQueue) ReserveBodies(id string, count int) (nums []uint64, progress bool, err error) {
+// ReserveBodies is queue.ReserveBodies for the stub peer `id`; returns the hashes of the reserved headers.
+func (v *VerifQueue) ReserveBodies(id string, count int) (hashes []common.Hash, progress bool, err error) {
 	req, progress, err := v.q.ReserveBodies(v.peer(id), count)
 	if req != nil {
 		for _, h := range req.Headers {
-			nums = append(nums, h.Number.Uint64())
+			hashes = append(hashes, h.Hash())
 		}
 	}
-	return nums, progress, err
+	return hashes, progress, err
 }
 
 // VerifErrClass names the error classes of a body delivery.
@@ -149,15 +149,14 @@ func (v *VerifQueue) Stats() (pendingBlocks int, inFlight bool, idle bool, throt
 	return v.q.PendingBlocks(), v.q.InFlightBlocks(), v.q.Idle(), v.q.ShouldThrottleBlocks()
 }
 
-// Pools reads the bookkeeping under the queue lock.  known maps header hashes to numbers for the done pool and
-// the lacking sets (which are keyed by hash only); hashes[i] must be known[i].Hash().
-func (v *VerifQueue) Pools(known []*types.Header, hashes []common.Hash) VerifPools {
+// Pools reads the bookkeeping under the queue lock.
+func (v *VerifQueue) Pools() VerifPools {
 	q := v.q
 	q.lock.Lock()
 	defer q.lock.Unlock()
-	out := VerifPools{Pend: map[string][]uint64{}, Lacks: map[string][]uint64{}, Offset: q.resultOffset, DoneCount: len(q.blockDonePool)}
-	for _, h := range q.blockTaskPool {
-		out.TaskPool = append(out.TaskPool, h.Number.Uint64())
+	out := VerifPools{Pend: map[string][]common.Hash{}, Lacks: map[string][]common.Hash{}, Offset: q.resultOffset}
+	for h := range q.blockTaskPool {
+		out.TaskPool = append(out.TaskPool, h)
 	}
 	// the priority queue has no iterator: drain it and push the same items back with the same priorities
 	type it struct {
@@ -171,27 +170,26 @@ func (v *VerifQueue) Pools(known []*types.Header, hashes []common.Hash) VerifPoo
 	}
 	for _, x := range items {
 		q.blockTaskQueue.Push(x.v, x.p)
-		out.TaskQueue = append(out.TaskQueue, x.v.(*types.Header).Number.Uint64())
+		out.TaskQueue = append(out.TaskQueue, x.v.(*types.Header).Hash())
 	}
 	for id, req := range q.blockPendPool {
-		nums := []uint64{}
+		hs := []common.Hash{}
 		for _, h := range req.Headers {
 			if h != nil {
-				nums = append(nums, h.Number.Uint64())
+				hs = append(hs, h.Hash())
 			}
 		}
-		out.Pend[id] = nums
+		out.Pend[id] = hs
 	}
-	for i, h := range known {
-		hash := hashes[i]
-		if _, ok := q.blockDonePool[hash]; ok {
-			out.Done = append(out.Done, h.Number.Uint64())
+	for h := range q.blockDonePool {
+		out.Done = append(out.Done, h)
+	}
+	for id, p := range v.peers {
+		p.lock.RLock()
+		for h := range p.lacking {
+			out.Lacks[id] = append(out.Lacks[id], h)
 		}
-		for id, p := range v.peers {
-			if p.Lacks(hash) {
-				out.Lacks[id] = append(out.Lacks[id], h.Number.Uint64())
-			}
-		}
+		p.lock.RUnlock()
 	}
 	last := -1
 	for i, r := range q.resultCache {
@@ -202,16 +200,11 @@ func (v *VerifQueue) Pools(known []*types.Header, hashes []common.Hash) VerifPoo
 	for i := 0; i <= last; i++ {
 		if r := q.resultCache[i]; r != nil {
 			out.Window = append(out.Window, r.Pending)
+			out.WindowHdr = append(out.WindowHdr, r.Header.Hash())
 		} else {
 			out.Window = append(out.Window, -99)
+			out.WindowHdr = append(out.WindowHdr, common.Hash{})
 		}
-	}
-	u := func(s []uint64) { sort.Slice(s, func(i, j int) bool { return s[i] < s[j] }) }
-	u(out.TaskPool)
-	u(out.TaskQueue)
-	u(out.Done)
-	for _, s := range out.Lacks {
-		u(s)
 	}
 	return out
 }
